@@ -401,6 +401,28 @@ def include_rules(ctx, modname: str, as_rule: str, only: tuple = ()) -> None:
     ctx.rep.functions_analysed |= sub.rep.functions_analysed
 
 
+def include_fn(ctx, fn, as_rule: str, only: tuple = ()) -> None:
+    """Like include_rules, for a single entry point of another rule module (avoids running -
+    and recursing into - the whole module)."""
+    from ..report import Report
+
+    class _Sub:
+        pass
+
+    sub = _Sub()
+    sub.p, sub.a, sub.tier = ctx.p, ctx.a, ctx.tier
+    sub.thorough = ctx.tier == "thorough"
+    sub.rep = Report(ctx.rep.prop, ctx.tier, ctx.rep.seed)
+    fn(sub)
+    for i in sub.rep.instances:
+        if only and i.rule not in only:
+            continue
+        i.why = f"[{i.rule}] {i.why}"
+        i.rule = as_rule
+        ctx.rep.instances.append(i)
+    ctx.rep.functions_analysed |= sub.rep.functions_analysed
+
+
 def defining_call(a, f: FuncInfo, expr, at_call: ast.AST):
     """If expr is a local bound (single reaching definition) to a call expression, that call;
     `at_call` is an AST node inside the statement where expr is used."""
